@@ -23,6 +23,18 @@ for p in glob.glob(EV + "/C*.json"):
         names.add((pk, base))
     ENC[pid] = names
 
+# the checks whose property a function is anchored in, for the functions nearly every cache check executes
+HOME = {
+ ("cdi", "refresh"): ["C01", "C13", "C12"], ("cdi", "Refresh"): ["C01", "C13", "C12"], ("cdi", "refreshIfRequired"): ["C11", "C20", "C12"],
+ ("cdi", "InjectDevices"): ["C04", "C02", "C14", "C12"], ("cdi", "WriteSpec"): ["C16", "C10", "C12"], ("cdi", "RemoveSpec"): ["C16", "C10", "C12"],
+ ("cdi", "highestPrioritySpecDir"): ["C16", "C10"], ("cdi", "Configure"): ["C20", "C12"], ("cdi", "configure"): ["C20", "C12", "C01"],
+ ("cdi", "newCache"): ["C20", "C01", "C12"], ("cdi", "NewCache"): ["C20", "C01"], ("cdi", "scanSpecDirs"): ["C01", "C13"],
+ ("cdi", "setup"): ["C20", "C11", "C12"], ("cdi", "start"): ["C20", "C11"], ("cdi", "stop"): ["C20", "C11", "C12"], ("cdi", "watch"): ["C11", "C12", "C20"],
+ ("cdi", "update"): ["C11", "C20", "C12"], ("cdi", "newSpec"): ["C05", "C08", "C01"], ("cdi", "ReadSpec"): ["C08", "C05"], ("cdi", "write"): ["C10", "C16"],
+ ("cdi", "validate"): ["C05", "C08"], ("cdi", "Apply"): ["C03", "C14", "C02"],
+}
+MAXCHECKS = 5
+
 def pkgof(rel):
     if rel.startswith("cmd/"): return "cmd"
     if rel.startswith("schema"): return "schema"
@@ -48,6 +60,8 @@ def main():
                 continue
             m = idx[mid]
             checks = sorted([pid for pid in ENC if (pkgof(rel), m["func"]) in ENC[pid]], key=lambda p: COST[p])
+            home = [p for p in HOME.get((pkgof(rel), m["func"]), []) if p in checks]
+            checks = home if home else checks[:MAXCHECKS]
             r = {"func": m["func"], "line": m["line"], "kind": m["kind"], "orig": m["orig"][:80], "repl": m["repl"][:80], "checks": {}, "caught_by": None}
             shutil.copy("/tmp/mut/%s/%s.go" % (key, mid), dst)
             for pid in checks:
